@@ -10,6 +10,8 @@ from gsa.report import Check
 
 TABLE = json.load(open(os.path.join(facts.VERIF, 'tables', 'c15.json')))
 
+CONTROL_UNITS = [Unit('control', 'positive_controls.cpp', [os.path.join(facts.VERIF, 'drivers', 'positive_controls.cpp')],
+                      no_inst=True)]
 UNITS = [
     Unit('st_pat', 'simplex_tree_pat.cpp', ['src/Simplex_tree/'], no_inst=True),
     Unit('mx_pat', 'matrix_pat.cpp', ['src/Persistence_matrix/', 'src/Zigzag_persistence/'], no_inst=True),
@@ -589,7 +591,7 @@ def run_copy_counters(chk, F):
     chk.expect_count('E1c-counter-copied', 'counters in copy constructors of matrix-level classes', n, 4)
 
 
-def run_field_guards(chk, F):
+def run_field_guards(chk, F, control=False):
     """E1-field-unguarded: a data member whose declaration does not depend on the options exists in every option set: a
     swap / assignment / copy-like constructor handles it in every option set. A statement of such a function that
     touches the member of the *other* object (`other.m`, `a.m.swap(b.m)`) only under one arm of an `if constexpr` on
@@ -597,8 +599,11 @@ def run_field_guards(chk, F):
     type is option-dependent itself (a std::conditional / a dummy type); otherwise the member is skipped in the option
     sets where the condition is false and the target keeps its own, stale value."""
     n = 0
+    fired = 0
     for c in F.classes:
-        if c['inst'] not in (0, 2) or c.get('unit') == 'mx_cls' or '/Persistence_matrix/' not in c['file']:
+        if c['inst'] not in (0, 2) or c.get('unit') == 'mx_cls' or \
+                (('/Persistence_matrix/' not in c['file']) if not control else
+                 not c['file'].endswith('positive_controls.cpp')):
             continue
         ftypes = {fl['n']: (fl.get('t') or '') + ' ' + (fl.get('ct') or '') for fl in c['fields']}
         if not ftypes:
@@ -650,6 +655,9 @@ def run_field_guards(chk, F):
                 g, arms, x = list(guards.values())[0]
                 t = ftypes[m]
                 ok = 'conditional' in t or 'Dummy' in t or 'dummy' in t
+                if control:
+                    fired += 0 if ok else 1
+                    continue
                 chk.ob('E1-field-unguarded', '%s %s: `%s` of the other object is only handled under `%s`: its type '
                        'depends on the options' % (c['name'], kind, m, ir.show(g.get('cond'))[:50]),
                        '%s:%s' % (rel(fn['file']), x.get('l')), ok,
@@ -658,6 +666,12 @@ def run_field_guards(chk, F):
                                                                  'swapped' if kind == 'swap' else 'taken over',
                                                                  ir.show(g.get('cond'))[:60]),
                        key='E1|%s|%s|%s|unguarded' % (c['name'], kind.rstrip('+'), m))
+    if control:
+        if not fired:
+            raise AnalysisBroken('C15: E1-field-unguarded stays silent on its positive control '
+                                 '(drivers/positive_controls.cpp)')
+        chk.count('E1-field-unguarded positive control reports', fired)
+        return
     chk.count('members handled under an option test in copy-like functions', n)
 
 
@@ -1244,6 +1258,7 @@ def run(tier, replay=None):
     run_scalar_init(chk, F)
     run_copy_counters(chk, F)
     run_field_guards(chk, F)
+    run_field_guards(chk, facts.extract(CONTROL_UNITS), control=True)
     run_text_roundtrip(chk, F)
     run_moved_from(chk, F)
     run_moved_from_functions(chk, F)
